@@ -72,7 +72,11 @@ def summarise(loop: t.Union[ast.While, ast.For]) -> t.List[ast.stmt]:
         l, op, r = tst.left, tst.ops[0], tst.comparators[0]
         if isinstance(op, ast.Lt):
             l, r, op = r, l, ast.Gt()
-        if not (isinstance(op, ast.Gt) and isinstance(l, ast.Name)):
+        if isinstance(op, ast.NotEq) and not isinstance(l, ast.Name) and isinstance(r, ast.Name):
+            l, r = r, l
+        # `v != T` walks like `v > T` when v starts above T; when it starts below, the loop does not end (that is the
+        # termination certificate's finding) - the summary takes the steps a terminating run makes: none
+        if not (isinstance(op, (ast.Gt, ast.NotEq)) and isinstance(l, ast.Name)):
             raise NotAWalk(f"loop test {unparse(tst)}")
         var, bound = l.id, r
     for i, s in enumerate(body):
